@@ -6,6 +6,9 @@
 From Coq Require Import NArith List Bool Arith Lia.
 From LC Require Import Base.Lib Gen.Editor_gen Model.Syllable Model.Composition Model.Conversion Model.Editor Model.EditorRun
      Model.EdInst Proofs.CompositionProofs Proofs.ConversionProofs Proofs.Paging Proofs.BreakPoints Proofs.EditorInv Proofs.EditorSelect Proofs.EditorWitness Proofs.EdInstProofs.
+From Coq Require Import ZArith.
+From LC Require Model.Config.
+From LC Require Import Gen.Keyboard_gen Model.CapiKeys Model.CapiConfig Model.CapiRun Proofs.CapiKeysProofs Proofs.CapiInv Proofs.EngineTiles.
 Import ListNotations.
 Open Scope nat_scope.
 
@@ -225,4 +228,41 @@ Example C07_nonvacuous :
 Proof.
   split; [repeat constructor; discriminate|]. split; [reflexivity|].
   vm_compute. eexists. split; reflexivity.
+Qed.
+
+(* ---- through the C API (Model/CapiKeys.v, CapiConfig.v, CapiRun.v) ----
+   After EVERY sequence of C calls with ANY int arguments on a fresh context, while a candidate list is open
+   (chewing_cand_CheckDone = 0): chewing_cand_ChoicePerPage >= 1, chewing_cand_TotalPage is the ceiling of
+   chewing_cand_TotalChoice over it, chewing_cand_CurrentPage is below the page count (page 0 of an empty list), and
+   chewing_cand_Enumerate walks exactly the candidates from the current page on. *)
+Theorem C07_paging_getters_after_any_C_calls : forall ss d ab t0 ops c',
+  ss_good ss -> ss_cursor ss = None -> md_fine d -> Forall cop_fine ops ->
+  crun mf_conv (cx_init d ab ss t0) ops = Ok c' -> chewing_cand_CheckDone c' = 0%Z ->
+  (1 <= chewing_cand_ChoicePerPage c')%Z /\
+  chewing_cand_TotalPage c' = ((chewing_cand_TotalChoice c' + chewing_cand_ChoicePerPage c' - 1) / chewing_cand_ChoicePerPage c')%Z /\
+  ((0 < chewing_cand_TotalChoice c')%Z -> (0 <= chewing_cand_CurrentPage c' < chewing_cand_TotalPage c')%Z) /\
+  (chewing_cand_TotalChoice c' = 0%Z -> chewing_cand_CurrentPage c' = 0%Z) /\
+  Z.of_nat (List.length (c_cand_enumerate c')) = (chewing_cand_TotalChoice c' - chewing_cand_CurrentPage c' * chewing_cand_ChoicePerPage c')%Z.
+Proof.
+  intros ss d ab t0 ops c' Hg Hf Hd Hops H Hdone.
+  apply (cinv_paging ss); [|exact Hdone].
+  exact (crun_inv mf_conv mf_conv_tiles ss Hg Hf ops (cx_init d ab ss t0) c' Hops (cx_init_inv ss d ab t0 Hg Hf Hd) H).
+Qed.
+Print Assumptions C07_paging_getters_after_any_C_calls.
+
+(* non-vacuity: Hsu by number, two candidates per page, `a` Space, Down, Right: page 1 of 2, four candidates (the
+   word of c and the three words of the alternative reading ei), two of them still to enumerate *)
+Definition c07_dict : memdict :=
+  mkMD (bt_insert ([10240], [27425], 10, 0) (bt_insert ([48], [27448], 5, 0) (bt_insert ([48], [35470], 6, 0) (bt_insert ([48], [21769], 7, 0) []))))%N [] [].
+Definition c07_history : list cop :=
+  [CSetKBType 1; CConfigSetInt (Config.iopt_name Config.OCandidatesPerPage) 2; CDefault 97; CHandle kcSpace 0; CHandle kcDown 0; CHandle kcRight 0]%Z.
+Example C07_c_history_example :
+  md_fine c07_dict /\ Forall cop_fine c07_history /\
+  exists c, crun mf_conv (cx_init c07_dict [] ss_empty 0%N) c07_history = Ok c /\ chewing_cand_CheckDone c = 0%Z /\
+    chewing_cand_TotalChoice c = 4%Z /\ chewing_cand_TotalPage c = 2%Z /\ chewing_cand_CurrentPage c = 1%Z /\
+    List.length (c_cand_enumerate c) = 2.
+Proof.
+  split; [split; vm_compute; repeat constructor; intro; discriminate|]. split.
+  - repeat (apply Forall_cons; [first [exact I | split; vm_compute; reflexivity]|]). apply Forall_nil.
+  - vm_compute. eexists. repeat split.
 Qed.
